@@ -47,7 +47,7 @@ class EquivalentStatements(Unit):
     props = ("C10",)
     fmodel = "ORDER"
     functions = [("cobyqa.main", "minimize"), ("cobyqa.main", "_get_bounds"), ("cobyqa.main", "_get_constraints")]
-    bounded = "native comparison of 8 pairs of equivalent problem statements (evaluation sequences and results, bit for bit; scaling to 1e-9)"
+    bounded = "native comparison of 11 pairs of equivalent problem statements (evaluation sequences and results, bit for bit; scaling to 1e-9)"
 
     def run(self, c):
         ensure_repo_on_path()
@@ -57,6 +57,12 @@ class EquivalentStatements(Unit):
         with np.errstate(all="ignore"):
             lb, ub = [0.0, -1.0], [3.0, 2.0]
             res["bounds_object_vs_array"] = same(run(f, [2.0, 0.0], bounds=Bounds(lb, ub)), run(f, [2.0, 0.0], bounds=np.column_stack([lb, ub])))
+            # a half-infinite box: the array / list-of-pairs forms with an explicit infinity, and with None for "no bound"
+            lbi, ubi = [0.0, -1.0], [np.inf, 2.0]
+            ref = run(f, [2.0, 0.0], bounds=Bounds(lbi, ubi))
+            res["half_infinite_bounds_object_vs_array"] = same(ref, run(f, [2.0, 0.0], bounds=np.column_stack([lbi, ubi])))
+            res["half_infinite_bounds_object_vs_pairs"] = same(ref, run(f, [2.0, 0.0], bounds=[(0.0, np.inf), (-1.0, 2.0)]))
+            res["half_infinite_bounds_object_vs_pairs_with_none"] = same(ref, run(f, [2.0, 0.0], bounds=[(0.0, None), (-1.0, 2.0)]))
             g = lambda x: x[0] - 2 * x[1] + 2
             res["dict_vs_nonlinear_constraint"] = same(run(f, [2.0, 0.0], constraints={"type": "ineq", "fun": g}),
                                                        run(f, [2.0, 0.0], constraints=NonlinearConstraint(g, 0.0, np.inf)))
